@@ -21,6 +21,8 @@ struct SCell {
     std::vector<C> v;        // value at each calibration frequency
     int handle = -1;         // libvna parameter handle once created
     int uparam = -1;         // >= 0: index into Scenario::uparams (unknown / correlated parameter; v holds the TRUTH)
+    std::vector<double> kf;  // VECTOR cells only, optional: the parameter's OWN knot frequencies ...
+    std::vector<C> kv;       // ... and values there (v then holds what a low-order rational through them gives at the calibration frequencies)
 };
 struct Standard {
     enum Entry { SINGLE = 0, DOUBLE = 1, THROUGH = 2, LINE = 3, MAPPED = 4 } entry = SINGLE;
@@ -426,8 +428,9 @@ struct Runner {
     std::vector<int> to_delete;
     C ab_scale = C(1, 0);              // common factor applied to a and b of every standard (C17 T4)
     pbt::Ctx *rnd;                     // source of the random 'a' matrices (default: the case's own tape)
+    bool borrowed_vcp = false;         // the vnacal_t belongs to another Runner (several vnacal_new_t in one vnacal_t)
     Runner(pbt::Ctx &c_, Scenario &s) : c(c_), sc(s), rnd(&c_) {}
-    ~Runner() { if (vnp) vnacal_new_free(vnp); if (vcp) vnacal_free(vcp); }
+    ~Runner() { if (vnp) vnacal_new_free(vnp); if (vcp && !borrowed_vcp) vnacal_free(vcp); }
 
     void create() {
         // parameter handles belong to one vnacal_t: forget those of an earlier run of the same scenario
@@ -468,7 +471,10 @@ struct Runner {
         if (s.kind <= SCell::SHORT) return (int)s.kind;
         if (s.handle >= 0) return s.handle;
         if (s.kind == SCell::SCALAR) s.handle = vnacal_make_scalar_parameter(vcp, mkc((double)s.v[0].real(), (double)s.v[0].imag()));
-        else {
+        else if (!s.kf.empty()) {
+            std::vector<dcx> g; for (auto &x : s.kv) g.push_back(mkc((double)x.real(), (double)x.imag()));
+            s.handle = vnacal_make_vector_parameter(vcp, s.kf.data(), (int)s.kf.size(), g.data());
+        } else {
             std::vector<dcx> g; for (auto &x : s.v) g.push_back(mkc((double)x.real(), (double)x.imag()));
             s.handle = vnacal_make_vector_parameter(vcp, sc.freq.data(), sc.F, g.data());
         }
